@@ -65,6 +65,12 @@ def analyse(pairs):
         if 'ignoring' in r['log'] and 'forall' in r['log']:
             problems.append('%s: quantifier ignored by back end' % rid)
         seen_canaries = set()
+        nobody = [x.get('property') for x in r['results'] if '.no_body.' in (x.get('property') or '')]
+        if nobody:
+            # a call that the unit's tables did not map to a stub or a lowered function: cbmc would treat it as an arbitrary
+            # function.  Whatever fails after that is not evidence of anything: the run is undecided.
+            problems.append('%s: extraction incomplete: call(s) without body %s (edited code calls a function the unit does not know)' % (rid, sorted(set(nobody))))
+            continue
         for x in r['results']:
             kind, name = E.classify(x.get('description', ''), x.get('property', ''))
             rec = dict(unit=u['name'], run=run['id'], kind=kind, name=name, status=x['status'], prop_id=x.get('property'),
